@@ -120,15 +120,19 @@ def run(ctx, scratch):
         if len(mats) > (40 if quick else 600):
             mats = rng.sample(mats, 40 if quick else 600)
         for E in mats:
-            sr = subsets(r, rng, 1)[0]
-            sc = subsets(c, rng, 1)[0]
+            tr = rng.random() < 0.4       # transposed biadjacency: rows and columns swap roles
+            sr = subsets(c if tr else r, rng, 1)[0]
+            sc = subsets(r if tr else c, rng, 1)[0]
             mode = rng.choice(['row', 'col', 'mixed', 'source', 'source_fb'])
             kw = dict(row=dict(source_row=sr), col=dict(source_col=sc), mixed=dict(source_row=sr, source_col=sc),
                       source=dict(source=sr), source_fb=dict(source=sr, fb=True))[mode]
             if mode == 'source' and r == c:
                 kw = dict(source=sr, fb=True)
-            add_dist('exh_bip_%s' % mode, r, c, E, **kw)
-            add_sp('exh_bip_%s' % mode, r, c, E, **kw)
+            if tr:
+                add_dist('exh_bip_T_%s' % mode, r, c, E, transpose=True, **kw)
+            else:
+                add_dist('exh_bip_%s' % mode, r, c, E, **kw)
+                add_sp('exh_bip_%s' % mode, r, c, E, **kw)
     # ---- structured random
     nmax = 12 if quick else 30
     for _ in range(250 if quick else 2500):
@@ -143,11 +147,16 @@ def run(ctx, scratch):
         add_dag('rnd_' + fam, n, E, order)
     for _ in range(60 if quick else 600):
         r, c, E = gen.random_biadj(rng, 6 if quick else 14, 6 if quick else 14)
-        sr = sorted(rng.sample(range(r), rng.randint(1, min(2, r))))
-        sc = sorted(rng.sample(range(c), rng.randint(1, min(2, c))))
+        tr = rng.random() < 0.4
+        rr, cc = (c, r) if tr else (r, c)
+        sr = sorted(rng.sample(range(rr), rng.randint(1, min(2, rr))))
+        sc = sorted(rng.sample(range(cc), rng.randint(1, min(2, cc))))
         kw = rng.choice([dict(source_row=sr), dict(source_col=sc), dict(source_row=sr, source_col=sc)])
-        add_dist('rnd_bip', r, c, E, **kw)
-        add_sp('rnd_bip', r, c, E, **kw)
+        if tr:
+            add_dist('rnd_bip_T', r, c, E, transpose=True, **kw)
+        else:
+            add_dist('rnd_bip', r, c, E, **kw)
+            add_sp('rnd_bip', r, c, E, **kw)
     # ---- malformed stream: model and code must agree on the error kind
     for _ in range(30):
         n, E, fam = gen.random_graph(rng, 6, directed=True)
